@@ -2,5 +2,5 @@
 EXTENDS Ids, Json
 ShapesDef == {<<>>, <<1>>, <<3>>, <<2, 0>>, <<0, 2>>, <<0, 0, 1>>, <<1, 1, 2>>}
 EmitWord == Len(word) = MaxAcc => PrintT(<<"BEH", ToJson(word)>>)
-NoAttack == IF ~(UniqueAids /\ NonZero /\ UniqueIids) THEN ~PrintT(<<"BEH", ToJson(word)>>) ELSE TRUE
+NoAttack == IF ~(UniqueAids /\ NonZero /\ UniqueIids /\ AutomaticAccepted) THEN ~PrintT(<<"BEH", ToJson(word)>>) ELSE TRUE
 =======================================================================
